@@ -11,11 +11,12 @@ from hypothesis import strategies as st
 import hdc.algo  # noqa: F401
 from harness import twins
 from harness.core import HarnessError, Violation
-from harness.util import req, fmt
+from harness.util import call, req, fmt
 
 PID = "C14"
 LEVEL = "exploration"
-RULE = ("The check process runs with NUMBA_BOUNDSCHECK=1 (verified effective at start by a deliberately out-of-range probe). For each of the "
+RULE = ("[seventh seeded round] sub-check 'zone_edit': one zone raster object across several do_mean calls, merged / masked in place in between (fewer zones asked for), under bounds checking, against brand-new copies; entry points that are no longer dispatchers themselves are still exercised. " +
+        "The check process runs with NUMBA_BOUNDSCHECK=1 (verified effective at start by a deliberately out-of-range probe). For each of the "
         "discovered programs (35 expected) Hypothesis draws boundary-sized in-contract inputs - series of length 2/3/4/5, one pixel, one "
         "group / one zone / every cell its own group / zone id n-1, window 1 and window == length, all missing / exactly one valid / two valid / "
         "all valid, srange of 2 and 3 entries, the shortest legal template (length 4, one mark) - and mid-sized random in-contract inputs. "
@@ -29,7 +30,7 @@ ASSUME = ["NUMBA_BOUNDSCHECK=1 makes every out-of-range (non-negative) index of 
           "negative-index wraparound is outside what this check can see (stated limit)"]
 
 stats = importlib.import_module("hdc.algo.ops.stats")
-PROGS = twins.discover_programs()
+PROGS = twins.entry_points()
 POISON = {"int16": (23130, 9509), "int8": (90, 37), "uint8": (90, 37), "uint32": (0x5A5A5A5A, 0x25252525), "float32": (1.2345e30, -9.87e-20),
           "float64": (1.2345e300, -9.87e-200)}
 
@@ -213,7 +214,12 @@ def _eq(a, b):
 
 def sub_program(case):
     name = case["prog"]
-    spec = build(case)
+    try:
+        spec = build(case)
+    except KeyError as e:
+        if e.args and e.args[0] == name:
+            return "no_generator_for_program"  # a helper added later: counted in the evidence, exercised through the entry points that call it
+        raise
     if spec is None:
         return "dtype_or_contract_not_applicable"
     kind, k, ins, outs = spec
@@ -299,7 +305,35 @@ def sub_accessor_written(case):
     c17.sub_mean_grp_accessor(case)
 
 
-SUBS = {"program": sub_program, "accessor_written": sub_accessor_written}
+def sub_zone_edit(case):
+    """One zone raster object across several do_mean calls, edited in place in between (zones merged, so the highest id disappears and
+    fewer zones are asked for): no call may index outside its arrays (bounds checking is compiled in) and every call must answer for the
+    raster as it is at that moment (oracle: the same call on a brand-new copy)."""
+    from hdc.algo.ops import zonal
+
+    r, c = case["grid"]
+    nz = int(case["nz"])
+    t = int(case.get("t", 2))
+    pix = (np.arange(t * r * c).reshape(t, r, c) * 7 % 101).astype(case.get("dtype", "int16"))
+    z = np.array([(i * 5 + 1) % nz for i in range(r * c)], dtype=case.get("zdtype", "int16")).reshape(r, c)
+    z[-1, -1] = nz - 1
+    cur = nz
+    znd = 255 if case.get("zdtype") == "uint8" else -1
+    for step, op in enumerate(case["ops"]):
+        if op == "merge" and cur > 1:
+            z[z == cur - 1] = (cur - 2) if case.get("into_neighbour", True) else 0
+            cur -= 1
+        elif op == "nodata" and cur > 1:
+            z[z == cur - 1] = znd  # the highest zone is masked out with the zone raster's nodata value
+            cur -= 1
+        got = call("do_mean (call %d on the same zone raster, %d zones)" % (step + 1, cur), zonal.do_mean, pix, z, cur, -9999, znd, np.float64)
+        want = call("do_mean (brand-new copy)", zonal.do_mean, pix.copy(), z.copy(), cur, -9999, znd, np.float64)
+        req(got.shape == want.shape and np.array_equal(got, want, equal_nan=True),
+            "do_mean call %d after in-place edits %s of the zone raster: %s, a brand-new copy of the raster gives %s" % (step + 1, case["ops"][:step + 1], fmt(got.ravel(), 12), fmt(want.ravel(), 12)),
+            "do_mean stale after zone raster edit")
+
+
+SUBS = {"zone_edit": sub_zone_edit, "program": sub_program, "accessor_written": sub_accessor_written}
 
 DT = {"stats.gammafit": ["int16", "float32", "float64"], "stats.gammastd": ["int16", "float32", "float64"], "stats.gammastd_yxt": ["int16", "float32", "float64"],
       "stats.gammastd_grp": ["int16", "float32"], "stats.mean_grp": ["float32", "int16", "int32", "int64"], "stats.rolling_sum": ["float32", "int16", "int64"],
@@ -388,6 +422,15 @@ def run(ctx):
         sub_accessor_written(case)
 
     ctx.given("accessor_written", many_groups(), ctx.n(14, 150), fn=f_aw, shrink=False)
+    ze = st.fixed_dictionaries({"grid": st.tuples(st.integers(1, 6), st.integers(2, 7)).map(list), "nz": st.integers(2, 9), "t": st.integers(1, 3),
+                                "dtype": st.sampled_from(["int16", "float32", "float64"]), "zdtype": st.sampled_from(["int16", "uint8", "int32"]),
+                                "into_neighbour": st.booleans(), "ops": st.lists(st.sampled_from(["same", "merge", "merge", "nodata"]), min_size=2, max_size=6)})
+
+    def f_ze(case):
+        rec.case("zone_edit", case, nontrivial=any(o != "same" for o in case["ops"][1:]), cls=["ops=%d" % len(case["ops"])])
+        sub_zone_edit(case)
+
+    ctx.given("zone_edit", ze, ctx.n(60, 600), fn=f_ze, shrink=False)
     names = sorted(PROGS)
     rec.extra["programs"] = len(names)
     rec.extra["boundscheck_verified"] = True
